@@ -87,4 +87,91 @@ def allCastable (Ls Ld : Layout) : Bool :=
                            | some fs => castable fs fd
                            | none => true)
 
+/-! ### the setters of from_header (`fromHeaderG?`) -/
+
+theorem fitsInt_iff (w : Nat) (x : Int) : fitsInt w x = true ↔ intFits w x := by
+  simp [fitsInt, intFits]
+
+theorem getShape_length (dim : List Int) (hl : dim.length = 8) (h7 : dim.getD 0 0 ≤ 7) :
+    1 ≤ (getShape dim).length ∧ (getShape dim).length ≤ 7 := by
+  simp only [getShape]
+  split
+  · simp
+  · rename_i hz
+    simp only [List.length_take, List.length_drop]
+    omega
+
+theorem getShape_setShapeDim (s : List Int) (h1 : 1 ≤ s.length) (h7 : s.length ≤ 7) :
+    getShape (setShapeDim s) = s := by
+  simp only [getShape, setShapeDim, List.cons_append, List.getD_cons_zero, Int.toNat_natCast,
+    List.drop_succ_cons, List.drop_zero]
+  split
+  · omega
+  · simp
+
+
+theorem dtCodeOf_find (t : List DtCode) (htab : dtTableOk t = true) (kind : Char) (isz : Nat) (k : Int)
+    (h : dtCodeOf t kind isz = some k) : ∃ r, dtFind t k = some r ∧ r.kind = kind ∧ r.isz = isz ∧ r ∈ t := by
+  unfold dtCodeOf at h
+  cases hf : t.find? (fun r => r.kind == kind && r.isz == isz) with
+  | none => simp [hf] at h
+  | some r =>
+    simp only [hf, Option.map_some, Option.some.injEq] at h
+    have hmem := List.mem_of_find?_eq_some hf
+    have hp := List.find?_some hf
+    simp only [Bool.and_eq_true, beq_iff_eq] at hp
+    simp only [dtTableOk, Bool.and_eq_true, List.all_eq_true, beq_iff_eq] at htab
+    have := htab.1.2 r hmem
+    exact ⟨r, by rw [← h]; exact this, hp.1, hp.2, hmem⟩
+
+theorem getInts_setSlots_in (L : Layout) (vals : List (List Nat)) (ns : List String)
+    (g : String → List Nat) (n : String) (hnd : ns.Nodup) (hn : n ∈ ns)
+    (hl : vals.length = L.fields.length) (f : Field) (hf : findFs L.fields n = some f) :
+    getInts L (setSlots L vals ns g) n = (g n).map (toInt (fieldW L n)) := by
+  unfold getInts
+  rw [getRaw_setSlots_in L vals ns g n hnd hn hl f hf]
+
+theorem convDtype?_some (ts td : List DtCode) (code k bp : Int) (h : convDtype? ts td code = some (k, bp)) :
+    ∃ rs, dtFind ts code = some rs ∧ rs.isz ≠ 0 ∧ dtCodeOf td rs.kind rs.isz = some k ∧
+      bp = ((8 * rs.isz : Nat) : Int) := by
+  unfold convDtype? at h
+  cases hrs : dtFind ts code with
+  | none => rw [hrs] at h; simp at h
+  | some rs =>
+    rw [hrs] at h
+    dsimp only at h
+    split at h
+    · simp at h
+    · rename_i hz
+      cases hk : dtCodeOf td rs.kind rs.isz with
+      | none => rw [hk] at h; simp at h
+      | some k' =>
+        rw [hk] at h
+        simp only [Option.map_some, Option.some.injEq, Prod.mk.injEq] at h
+        exact ⟨rs, rfl, hz, by rw [← h.1]; exact hk, h.2.symm⟩
+
+theorem fromHeaderG?_some (cs cd : ClsSpec) (Ls Ld : Layout) (src copied : List (List Nat))
+    (g : String → List Nat) (hg : fromHeaderG? cs cd Ls Ld src copied = some g) :
+    ∃ k bp, convDtype? cs.dtTable cd.dtTable ((getInts Ls src "datatype").getD 0 0) = some (k, bp) ∧
+      (∀ x ∈ getShape (getInts Ls src "dim"), fitsInt (fieldW Ld "dim") x = true) ∧
+      g "datatype" = [ofInt (fieldW Ld "datatype") k] ∧ g "bitpix" = [ofInt (fieldW Ld "bitpix") bp] ∧
+      g "dim" = (setShapeDim (getShape (getInts Ls src "dim"))).map (ofInt (fieldW Ld "dim")) ∧
+      g "pixdim" = fromHeaderPixG cd.pixFmt (getInts Ls src "dim") (getRaw Ld copied "pixdim") := by
+  unfold fromHeaderG? at hg
+  cases hconv : convDtype? cs.dtTable cd.dtTable ((getInts Ls src "datatype").getD 0 0) with
+  | none => rw [hconv] at hg; simp at hg
+  | some kb =>
+    obtain ⟨k, bp⟩ := kb
+    rw [hconv] at hg
+    dsimp only at hg
+    split at hg
+    · simp at hg
+    · rename_i hfit
+      split at hg
+      · simp at hg
+      · simp only [Option.some.injEq] at hg
+        refine ⟨k, bp, rfl, ?_, ?_, ?_, ?_, ?_⟩
+        · simpa using hfit
+        all_goals (rw [← hg]; simp)
+
 end Nb.C10
